@@ -20,6 +20,7 @@ import (
 	"github.com/cockroachdb/apd/v3"
 
 	"cuelang.org/go/internal"
+	"cuelang.org/go/internal/core/adt"
 )
 
 // Avg returns the average value of a non empty list xs.
@@ -121,6 +122,9 @@ func Range(start, limit, step *internal.Decimal) ([]*internal.Decimal, error) {
 			break
 		}
 
+		if len(vals) >= adt.MaxRepeatCount {
+			return nil, fmt.Errorf("range exceeds limit of %d elements", adt.MaxRepeatCount)
+		}
 		vals = append(vals, num)
 		d := apd.New(0, 0)
 		_, err := internal.BaseContext.Add(d, step, num)
